@@ -309,6 +309,8 @@ def check_c03(tier, seed, t0):
     kx_leg(agg, "c03", "boundary", "chk", "C03")
     kx_leg(agg, "c03", "boundary" if tier == "quick" else "full", "rel", "C03")
     if not agg["violations"]:
+        if agg.get("unconfirmed"):
+            raise MachineryError("violations were observed that do not replay deterministically, and nothing else was found: " + " | ".join(agg["unconfirmed"][:3]))
         props.vacuity("C03", agg)
     agg["explanation"] = "states x forged universe in hx (positions 0..capacity+1 and 2^24-1 x every generation present +-1, 1, 2, MAX x archetype bytes; direct handles: indices 0..len+1, 2^24-1 x versions around the current one), plus kx sweeps of four fixed states over the key space"
     return M.finish("C03", tier, seed, "model_checking", agg, t0)
@@ -442,6 +444,7 @@ def build_all():
     t0 = time.time()
     for prof, feats in (("chk", ()), ("rel", ()), ("chk", ("wide",)), ("chk", ("events",))):
         build("hx", prof, feats)
+    build("hx", "rel", (), toolchain="nightly", rustflags_extra="-Zsanitizer=address", target_sub="asan", extra_args=("--target=x86_64-unknown-linux-gnu",))
     for feats, prof in MX_CONFIGS_QUICK[2:]:
         build("hx", prof, feats)
     for prof in ("chk", "rel"):
